@@ -10,16 +10,19 @@ from framework import Result
 from props import _util
 
 ID = 'C13'
-LEAN_TARGETS = ['TexSoupProofs.Properties.C13Lines']
+LEAN_TARGETS = ['TexSoupProofs.Properties.C13Lines', 'TexSoupProofs.Properties.C13Positions', 'TexSoupProofs.Properties.C19']
 THEOREMS = ['TexSoup.C13Lines.' + n for n in (
     'lineStart_no_lf', 'lineStart_after_lf', 'charPosToLine_correct_le', 'charPosToLine_correct',
     'charPosToLine_correct_at_end', 'charPosToLine_beyond_end',
-    'Legacy.charPosToLine_wrong_at_lf', 'Legacy.charPosToLine_wrong_at_every_lf')]
-PARTIAL = ['clause (i) "the position recorded for every command, environment, group, math region and text token is '
-           'the offset of its first character": explored only (oracle on the implementation + model/implementation '
-           'agreement on the positioned tree of the `parse` request); no Lean theorem',
-           'clause (iii) "every match reported by search_regex carries the true source offset": explored only '
-           '(oracle on the implementation; regular expressions are not modelled)']
+    'Legacy.charPosToLine_wrong_at_lf', 'Legacy.charPosToLine_wrong_at_every_lf')] + [
+    'TexSoup.C13.node_positions', 'TexSoup.C13.node_positions_nonempty', 'TexSoup.C13.node_first_char',
+    'TexSoup.C13.intended_statement_false', 'TexSoup.token_offsets', 'TexSoup.token_offsets_bounded']
+PARTIAL = ['clause (i) is proved in the form: at the recorded offset of every node the source carries the first token of '
+           'that node and the node\'s text starts with it (C13.node_positions, node_first_char); the only exception is the '
+           'empty text child of an empty verbatim-like environment (C13.intended_statement_false); nodes made up for a bare '
+           'argument (position -1) are outside the grammar and skipped',
+           'clause (iii) "every match reported by search_regex carries the true source offset": token offsets are proved '
+           '(token_offsets); the regular-expression engine is trusted, not modelled: explored by the oracle']
 TRUSTED = ['hand-written model of CharToLineOffset (lean/TexSoupModel/Pos.lean) and of the reader, tied to the code '
            'by the correspondence run only',
            'correspondence harness (props/c13.py, lib_pos.py, common.canon_expr)',
